@@ -118,7 +118,14 @@ def run_tasks(tasks, tier, seed, jobs=16):
                 if p.is_alive():
                     p.kill()
             elif not p.is_alive():
-                results.append(dict(kind=kind, key=name, crash="worker exited (code %s) without result" % p.exitcode))
+                # the worker may have sent its result and exited between the poll above and this test: look once more before calling it a crash
+                if pc.poll(0.2):
+                    try:
+                        results.append(pc.recv())
+                    except EOFError:
+                        results.append(dict(kind=kind, key=name, crash="worker died without result"))
+                else:
+                    results.append(dict(kind=kind, key=name, crash="worker exited (code %s) without result" % p.exitcode))
             elif time.time() - t0 > limit:
                 p.kill()
                 p.join()
